@@ -12,6 +12,7 @@ bind  : spec -> code: every "done" state of TraceSummary (complete stored trace 
 import json
 import os
 import sys
+import time
 
 sys.path.insert(0, os.path.dirname(os.path.abspath(__file__)))
 from vlib import env, tlc, pool, repodata
@@ -39,11 +40,13 @@ def group(grouped, kind, key, detail):
         g["examples"].append(detail)
 
 
-def replay(ck, states, grouped, feats, behaviours, modes):
-    """spec -> code: every done state into the real classes (compiled and interpreted)"""
+def replay(ck, states, grouped, feats, behaviours, tier):
+    """spec -> code: every done state into the real classes, compiled; interpreted (NUMBA_DISABLE_JIT) as well for
+    every state (quick) / every third state (thorough)"""
     chunk = 250
-    chunks = [states[i: i + chunk] for i in range(0, len(states), chunk)]
-    for mode in modes:
+    for mode in ("jit", "py"):
+        sel = states if (mode == "jit" or tier == "quick") else states[::3]
+        chunks = [sel[i: i + chunk] for i in range(0, len(sel), chunk)]
         res = pool.map_tasks("impl.c14", [{"op": "states", "states": c, "mode": mode} for c in chunks], mode=mode)
         for c, rr in zip(chunks, res):
             if not rr["ok"]:
@@ -67,6 +70,28 @@ def replay(ck, states, grouped, feats, behaviours, modes):
         behaviours.add((s["kind"], tuple(s["ps"]), s["k"], s["c"], s["s"]))
 
 
+def replay_file(ck, path):
+    """./check C14 --replay work/C14/violation-N.json : re-run exactly the recorded cases"""
+    env.EVIDENCE = ck.wd          # a replay must not overwrite the evidence of the last full run
+    with open(path) as fh:
+        rec = json.load(fh)
+    ex = rec["detail"].get("examples", [])
+    states = [e["state"] for e in ex if isinstance(e.get("state"), dict) and "sm" in e["state"]]
+    events = [e["event"] for e in ex if "event" in e]
+    if "event" in rec["detail"]:
+        events.append(rec["detail"]["event"])
+    grouped = {}
+    if states:
+        replay(ck, states, grouped, {}, set(), "quick")
+    for (kind, _), g in sorted(grouped.items()):
+        ck.violation(kind, {"n_cases": g["n"], "examples": g["examples"]}, key=g["key"])
+    if events:
+        validate_events(ck, events, "replay-trace.json")
+    ck.note("replayed_cases", len(states) + len(events))
+    ck.sample({"kind": "replayed", "file": path})
+    ck.finish()
+
+
 def main():
     ck = Check("C14")
     tier = ck.tier
@@ -77,6 +102,10 @@ def main():
         "every such state is replayed into the real classes. Non-trivial = the retained trace holds more than one "
         "distinct genotype (other features are counted separately in `state_features`)."
     )
+    if os.environ.get("VERIF_REPLAY"):
+        return replay_file(ck, os.environ["VERIF_REPLAY"])
+    phase = {}
+    t0 = time.time()
     # ---- 1. mutant specifications (binding demonstration) --------------------------------
     try:
         killed = 0
@@ -91,16 +120,20 @@ def main():
     except tlc.TLCError as e:
         ck.machinery_failure(str(e))
 
+    phase["mutant_specs"] = round(time.time() - t0, 1)
     # ---- 2. model checking + spec -> code, one part of the grid after the other -----------
     parts = ["MC_quick.cfg"] if tier == "quick" else ["MC_thorough.cfg", "MC_thorough_b.cfg", "MC_thorough_c.cfg",
                                                        "MC_thorough_d.cfg"]
     grouped, feats, behaviours = {}, {}, set()
     n_states = 0
     for cfg in parts:
+        t1 = time.time()
         try:
             r = tlc.run(SPEC, "TraceSummary", cfg, timeout=2400)
         except tlc.TLCError as e:
             ck.machinery_failure(str(e))
+        phase["tlc:" + cfg] = round(time.time() - t1, 1)
+        t1 = time.time()
         ck.add_tlc(r, "TraceSummary:" + cfg)
         if r.violated:
             ck.violation("model", {"cfg": cfg, "invariant": r.violated, "text": r.error_text[:1500]},
@@ -116,7 +149,8 @@ def main():
         if not states:
             ck.machinery_failure("TLC printed no states for %s" % cfg)
         n_states += len(states)
-        replay(ck, states, grouped, feats, behaviours, modes=("jit", "py"))
+        replay(ck, states, grouped, feats, behaviours, tier)
+        phase["replay:" + cfg] = round(time.time() - t1, 1)
         ck.sample({"kind": "model-state", "state": states[len(states) // 3]})
         del states
     ck.note("done_states_replayed", n_states)
@@ -128,7 +162,10 @@ def main():
     ck.note("state_features", feats)
 
     # ---- 3. code -> spec: real program runs validated by TraceTraceSummary ---------------
+    t1 = time.time()
     trace_part(ck)
+    phase["program_traces"] = round(time.time() - t1, 1)
+    ck.note("phase_wall_s", phase)
 
     ck.exhaustive = True
     ck.assumptions = [
@@ -141,22 +178,9 @@ def main():
     ck.finish()
 
 
-def trace_part(ck):
-    tier = ck.tier
-    nrun = 12 if tier == "quick" else 90
-    data_dir = repodata.copy_test_data(ck.wd, repodata.ASSEMBLE_FILES + repodata.CALL_FILES)
-    tasks = [{"op": "programs", "seed": ck.seed * 1000 + i, "index": i, "data_dir": data_dir} for i in range(nrun)]
-    res = pool.map_tasks("impl.c14", tasks, mode="jit")
-    events = []
-    for t, rr in zip(tasks, res):
-        if not rr["ok"]:
-            ck.violation("impl-error", {"task": t, "error": rr["error"], "tb": rr.get("tb", "")[-1500:]},
-                         key={"site": "program-run"})
-            continue
-        events.extend(rr["result"])
-    if not events:
-        ck.machinery_failure("no program events recorded")
-    tf = os.path.join(ck.wd, "trace.json")
+def validate_events(ck, events, fname):
+    """code -> spec: TLC (TraceTraceSummary) gives every recorded line a verdict"""
+    tf = os.path.join(ck.wd, fname)
     with open(tf, "w") as fh:
         json.dump(events, fh)
     try:
@@ -172,6 +196,28 @@ def trace_part(ck):
             e = events[p["reject"] - 1]
             ck.violation("trace-reject", {"line": p["reject"], "clause": p["clause"], "event": e},
                          key={"site": e["program"], "clause": p["clause"]})
+
+
+def trace_part(ck):
+    tier = ck.tier
+    nrun = 12 if tier == "quick" else 90
+    data_dir = repodata.copy_test_data(ck.wd, repodata.ASSEMBLE_FILES + repodata.CALL_FILES)
+    tasks = [{"op": "programs", "seed": ck.seed * 1000 + i, "index": i, "data_dir": data_dir} for i in range(nrun)]
+    # plus sampler classes driven through the API from unsorted initial vectors (order invariance of allele traces)
+    napi = 6 if tier == "quick" else 40
+    tasks += [{"op": "programs", "api": True, "seed": ck.seed * 1000 + 500 + i, "index": i, "n": 6 if tier == "quick" else 8}
+              for i in range(napi)]
+    res = pool.map_tasks("impl.c14", tasks, mode="jit")
+    events = []
+    for t, rr in zip(tasks, res):
+        if not rr["ok"]:
+            ck.violation("impl-error", {"task": t, "error": rr["error"], "tb": rr.get("tb", "")[-1500:]},
+                         key={"site": "program-run"})
+            continue
+        events.extend(rr["result"])
+    if not events:
+        ck.machinery_failure("no program events recorded")
+    validate_events(ck, events, "trace.json")
     ck.traces += len(events)
     ck.evaluations += len(events)
     ck.nontrivial += sum(1 for e in events if e["distinct"] > 1)
